@@ -378,6 +378,22 @@ let run_atomic fields = match fields with
     String.concat "," (mids @ [show (a_run e.e_name now_sentinel { a_path = s0; a_temp = None } steps)])
   | _ -> failwith "atomic: want 4 fields"
 
+
+(* ---- daemon request dispatch ---- *)
+let string_of_hexstr (h : string) : string =
+  let l = bytes_of_hex h in String.concat "" (List.map (fun b -> String.make 1 (Char.chr (int_of_z b))) l)
+let run_daemonreq fields = match fields with
+  | [mods; req; flags] ->
+    let ms = List.map (fun m -> match split ':' m with
+      | [n; w] -> { m_name = n; m_writable = (w = "1") } | _ -> failwith "bad module") (split ',' mods) in
+    let fl = List.map string_of_hexstr (split ',' flags) in
+    (match daemon_request ms (string_of_hexstr req) true fl with
+     | DList -> "list" | DUnknownModule -> "unknown-module" | DDenied -> "denied"
+     | DParseError (EExit _) -> "exit" | DParseError _ -> "parse-error"
+     | DBadArgs -> "badargs" | DSender (_, _) -> "sender"
+     | DRefusedReadOnly _ -> "refused-read-only" | DReceiver (_, _) -> "receiver")
+  | _ -> failwith "daemonreq: want 3 fields"
+
 (* ---- option parser ---- *)
 let run_popt fields = match fields with
   | [argv] ->
@@ -505,6 +521,7 @@ let dispatch comp fields =
   | "decision" -> run_decision fields
   | "gensums" -> run_gensums fields
   | "genops" -> run_genops fields
+  | "daemonreq" -> run_daemonreq fields
   | "atomic" -> run_atomic fields
   | "recvmeta" -> run_recvmeta fields
   | "ssession" -> run_ssession fields
